@@ -177,9 +177,34 @@ class C02(E1Prop):
         self.gen.make = make
 
     def next_op(self, w, rng, step, nsteps):
-        op = self.gen.next(w)
         tier = getattr(self, 'tier', 'quick')
-        maxp = 1 if tier == 'quick' else 4
+        if step == 0:
+            self.script = []
+            if rng.random() < 0.5:
+                # story: drive one multi-target PR up to the job that lands
+                # it, and put the fault probe on that very job
+                dests = ops.dest_branches(w.cfg)
+                d = rng.choice(dests[:max(1, len(dests) - 1)])
+                seq = [{'op': 'open_pr', 'actor': 'alice',
+                        'src': 'bugfix/TEST-601', 'dst': d, 'kind': 'new'},
+                       {'op': 'eval', 'p': 0},
+                       {'op': 'ci_green_all', 'which': ['src', 'w']}]
+                if w.use_queue and not w.cfg.get('skip_queue'):
+                    seq += [{'op': 'eval', 'p': 0},
+                            {'op': 'ci_green_all', 'which': ['q']}]
+                seq.append({'op': 'probe', 'i': 10 ** 6, 'last': True,
+                            'wipe': rng.random() < 0.3,
+                            'nfaults': 6 if tier == 'quick' else 0,
+                            'skip_roll': 1.0,
+                            'pick': rng.randrange(10 ** 9)})
+                for o in seq:
+                    o['dt'] = rng.choice([1, 5, 30])
+                self.script = seq
+                self.nprobes += 1
+        if getattr(self, 'script', None):
+            return self.script.pop(0)
+        op = self.gen.next(w)
+        maxp = 2 if tier == 'quick' else 4
         if op['op'] == 'deliver' and self.nprobes < maxp and \
                 rng.random() < 0.5:
             self.nprobes += 1
@@ -199,7 +224,13 @@ class C02(E1Prop):
         if not w.events:
             w.step_digest(op, [])
             return []
-        ev = w.events.pop(op['i'] % len(w.events))
+        if op.get('last'):
+            # the story wants the newest event (a green report on a queue
+            # tip, or the PR event): that job lands the PR
+            ev = w.events.pop()
+            w.events = [e for e in w.events if e != ev]
+        else:
+            ev = w.events.pop(op['i'] % len(w.events))
         if op.get('skip_roll', 1.0) < 0.65:
             # cheap look-ahead: most probes should land on jobs that move a
             # destination branch (that is where all-or-none is decided)
